@@ -355,14 +355,14 @@ Qed.
 Section W2.
   Variable alnum : N -> bool.
 
-  Lemma word_stepL_ok maxw ls cur b word :
+  Lemma word_stepL_ok maxw nsp0 ls cur b word :
     Forall okl ls -> okl cur -> sp_end (content cur) ->
     gw (pgood cur) (ws_words word) = true -> nlfree word = true ->
-    let '(ls', cur', _) := word_stepL maxw (ls, cur, b) word in
+    let '(ls', cur', _) := word_stepL maxw nsp0 (ls, cur, b) word in
     Forall okl ls' /\ okl cur' /\ sp_end (content cur') /\ pgood cur' = pgood cur.
   Proof.
     intros Hls [Hc1 Hc2] Hs Hw Hn. cbn [word_stepL].
-    destruct (is_nil (content cur) || (blen (content cur) + blen word <=? maxw)).
+    destruct (is_nil (content cur) || (blen (content cur) + blen word <=? maxw) || is_nil (trim word) || ((nsp0 =? 0) && starts_prefix_char word)).
     - split; [exact Hls|]. split; [|split; [|reflexivity]].
       + split.
         * rewrite line_safe_unfold, pgood_with_content. cbn [with_content content].
@@ -379,17 +379,17 @@ Section W2.
       + right. exists word. reflexivity.
   Qed.
 
-  Lemma words_fold_ok maxw words : forall ls cur b,
+  Lemma words_fold_ok maxw nsp0 words : forall ls cur b,
     Forall okl ls -> okl cur -> sp_end (content cur) ->
     Forall (fun wd => gw (pgood cur) (ws_words wd) = true /\ nlfree wd = true) words ->
-    let '(ls', cur', _) := fold_left (word_stepL maxw) words (ls, cur, b) in
+    let '(ls', cur', _) := fold_left (word_stepL maxw nsp0) words (ls, cur, b) in
     Forall okl ls' /\ okl cur' /\ pgood cur' = pgood cur.
   Proof.
     induction words as [|wd words IH]; intros ls cur b Hls Hc Hs Hw; cbn [fold_left].
     - auto.
     - inversion Hw as [|? ? [Hw1 Hw2] Hw']; subst.
-      pose proof (word_stepL_ok maxw ls cur b wd Hls Hc Hs Hw1 Hw2) as H1.
-      destruct (word_stepL maxw (ls, cur, b) wd) as [[ls1 cur1] b1]. destruct H1 as [A1 [A2 [A3 A4]]].
+      pose proof (word_stepL_ok maxw nsp0 ls cur b wd Hls Hc Hs Hw1 Hw2) as H1.
+      destruct (word_stepL maxw nsp0 (ls, cur, b) wd) as [[ls1 cur1] b1]. destruct H1 as [A1 [A2 [A3 A4]]].
       specialize (IH ls1 cur1 b1 A1 A2 A3). rewrite A4 in IH. specialize (IH Hw').
       destruct (fold_left _ words _) as [[ls2 cur2] b2]. destruct IH as [B1 [B2 B3]]. split; [exact B1|]. split; [exact B2|]. congruence.
   Qed.
@@ -415,7 +415,7 @@ Section W2.
         - rewrite line_safe_unfold. unfold cur0. rewrite pgood_with_content. cbn [with_content content].
           rewrite ws_words_snoc_ws by reflexivity. exact P1.
         - unfold cur0. cbn [with_content content]. rewrite nlfree_app, P2. reflexivity. }
-      pose proof (words_fold_ok maxw (split_on space (content orig)) ls cur0 false Hls Hc0) as H.
+      pose proof (words_fold_ok maxw (n_leading_spaces orig) (split_on space (content orig)) ls cur0 false Hls Hc0) as H.
       destruct (fold_left _ _ _) as [[ls2 cur2] b2].
       destruct H as [A1 [[A2 A3] A4]]. { right. eexists. reflexivity. } { apply Hwords. unfold cur0. rewrite pgood_with_content. auto. }
       split; [exact A1|]. split.
@@ -426,7 +426,7 @@ Section W2.
       assert (Hc0 : okl cur0).
       { split; [|reflexivity]. rewrite line_safe_unfold. unfold cur0. cbn [with_content content]. cbn. apply orb_true_r. }
       assert (Hls' : Forall okl (ls ++ [prev])) by (apply Forall_app; split; [exact Hls|constructor; [exact Hp|constructor]]).
-      pose proof (words_fold_ok maxw (split_on space (content orig)) (ls ++ [prev]) cur0 false Hls' Hc0) as H.
+      pose proof (words_fold_ok maxw (n_leading_spaces orig) (split_on space (content orig)) (ls ++ [prev]) cur0 false Hls' Hc0) as H.
       destruct (fold_left _ _ _) as [[ls2 cur2] b2].
       destruct H as [A1 [[A2 A3] A4]]. { left. reflexivity. } { apply Hwords. reflexivity. }
       split; [exact A1|]. split.
